@@ -43,6 +43,8 @@ class ProtoGhost:
         self.suspensions = []       # hooks run at every suspension point: f(ex, what)
         self.on_tx = []             # hooks run at every transmission: f(ex, transport, payload)
         self.connect_failed = False
+        self.send_failed = False
+        self.sync_send_errors = True    # model the synchronous error_received of a failing datagram send
         self.lock_events = []
 
 
@@ -85,6 +87,18 @@ class GLoop:
         g.delays.append(("call_later", delay, cb))
         g.events.append(("call_later", delay, cb, h))
         return h
+
+    def time(self):
+        """the loop's clock: a number that never decreases; it may advance at every suspension point"""
+        from . import interp
+        return now(interp.current())
+
+    def call_at(self, when, cb, *args):
+        from . import interp
+        ex = interp.current()
+        # same as call_later with the delay that is left at the moment of the call
+        delay = mk_int(iterm(when) - iterm(now(ex)))
+        return self.call_later(delay, cb, *args)
 
     def call_soon(self, cb, *args):
         from . import interp
@@ -159,6 +173,16 @@ class GTransport:
             hook(ex, self, payload)
 
     def sendto(self, payload, addr=None):
+        # selector_events._SelectorDatagramTransport.sendto: an OSError of socket.send() is reported by calling
+        # protocol.error_received(exc) *synchronously* before sendto returns (nothing is transmitted then)
+        from . import interp
+        ex = interp.current()
+        g = pg(ex)
+        if g.proto is not None and g.sync_send_errors and ex.choose(2, tag="sendto.fails") == 1:
+            g.send_failed = True
+            g.events.append(("send_error", payload))
+            ex.call(ex.getattr(g.proto, "error_received"), [ex.new_object(OSError("sendto failed"))], {})
+            return
         self._send(payload)
 
     def write(self, payload):
@@ -364,9 +388,20 @@ class GWaitFor:
         return aio.await_value(ex, self.aw)
 
 
+def now(ex):
+    g = pg(ex)
+    if getattr(g, "now", None) is None:
+        g.now = ex.fresh_int("loop_time")
+    return g.now
+
+
 def suspend(ex, what):
     """a suspension point of the current task: callbacks (and, with several callers, other tasks) run here"""
     g = pg(ex)
+    if getattr(g, "now", None) is not None:
+        later = ex.fresh_int("loop_time")
+        ex.fact(later.t >= iterm(g.now))
+        g.now = later
     for hook in g.suspensions:
         hook(ex, what)
 
